@@ -8,7 +8,7 @@ import z3
 from .. import poly, quat, solve, stubs, sym
 from ..sarr import NpProxy, SArr, patched, sarr
 from ..sym import R, real
-from .common import all_eq, eq, np_installed, pydrex_modules, sample
+from .common import all_eq, eq, np_installed, pydrex_modules, sample, only_path
 
 TIMEOUT_MS = {"quick": 60000, "thorough": 300000}
 REF_AXES = ["xy", "xz", "yx", "yz", "zx", "zy"]
@@ -129,7 +129,7 @@ def t_poles(sess, ref_axes):
 
     with np_installed(geo), patched((geo, "la", GeoLa())):
         paths, info = sym.explore(fn, catch=(Exception,))
-    p = paths[0]
+    p = only_path(sess, paths)
     if p.exc is not None:
         raise sym.HarnessError(f"poles: {p.exc!r}")
     qs, A, hkl, (xv, yv, zv) = p.value
